@@ -687,40 +687,56 @@ func DependencyGraphThread() {
 
 func MakeTracesDependancyGraph(startEpoch int64, endEpoch int64, myid int64) map[string]map[string]int {
 
+	const pageSize = 1000
 	requestBody := map[string]interface{}{
 		"indexName":     "traces",
 		"startEpoch":    startEpoch,
 		"endEpoch":      endEpoch,
 		"searchText":    "*",
 		"queryLanguage": "Splunk QL",
+		"size":          pageSize,
+		"from":          0,
 	}
-	requestBodyJSON, err := json.Marshal(requestBody)
-	if err != nil {
-		fmt.Printf("MakeTracesDependancyGraph: Error marshaling request body=%v, Error=%v", requestBody, err)
-		return nil
-	}
-	ctx := &fasthttp.RequestCtx{}
-	ctx.Request.SetBody(requestBodyJSON)
 
-	ctx.Request.Header.SetMethod("POST")
-	pipesearch.ProcessPipeSearchRequest(ctx, myid)
+	// The parent of a span may be on another page of the results, so collect all the spans first.
+	spans := make([]*structs.Span, 0)
+	for from := 0; ; from += pageSize {
+		requestBody["from"] = from
+		requestBodyJSON, err := json.Marshal(requestBody)
+		if err != nil {
+			fmt.Printf("MakeTracesDependancyGraph: Error marshaling request body=%v, Error=%v", requestBody, err)
+			return nil
+		}
+		ctx := &fasthttp.RequestCtx{}
+		ctx.Request.SetBody(requestBodyJSON)
 
-	rawSpanData := structs.RawSpanData{}
-	if err := json.Unmarshal(ctx.Response.Body(), &rawSpanData); err != nil {
-		log.Errorf("MakeTracesDependancyGraph: could not unmarshal json body, err=%v", err)
-		return nil
+		ctx.Request.Header.SetMethod("POST")
+		pipesearch.ProcessPipeSearchRequest(ctx, myid)
+
+		rawSpanData := structs.RawSpanData{}
+		if err := json.Unmarshal(ctx.Response.Body(), &rawSpanData); err != nil {
+			log.Errorf("MakeTracesDependancyGraph: could not unmarshal json body, err=%v", err)
+			return nil
+		}
+		if len(rawSpanData.Hits.Spans) == 0 {
+			break
+		}
+		spans = append(spans, rawSpanData.Hits.Spans...)
 	}
-	spanIdToServiceName := make(map[string]string)
+
+	// Span ids are only unique within a trace.
+	type spanKey struct{ traceID, spanID string }
+	spanIdToServiceName := make(map[spanKey]string)
 	dependencyMatrix := make(map[string]map[string]int)
 
-	for _, span := range rawSpanData.Hits.Spans {
-		spanIdToServiceName[span.SpanID] = span.Service
+	for _, span := range spans {
+		spanIdToServiceName[spanKey{span.TraceID, span.SpanID}] = span.Service
 	}
-	for _, span := range rawSpanData.Hits.Spans {
+	for _, span := range spans {
 		if span.ParentSpanID == "" {
 			continue
 		}
-		parentService, parentExists := spanIdToServiceName[span.ParentSpanID]
+		parentService, parentExists := spanIdToServiceName[spanKey{span.TraceID, span.ParentSpanID}]
 		if !parentExists {
 			continue
 		}
